@@ -154,3 +154,12 @@ package encoder
 //@   ensures e == nil && mode == decoder.Mode_ALPHANUMERIC ==> bits.size == old(bits.size) + alnumBits(len(content))
 //@   ensures e == nil && mode == decoder.Mode_BYTE ==> bits.size >= old(bits.size) && (bits.size - old(bits.size)) % 8 == 0
 //@   ensures e == nil ==> mode == decoder.Mode_NUMERIC || mode == decoder.Mode_ALPHANUMERIC || mode == decoder.Mode_BYTE || mode == decoder.Mode_KANJI
+
+// appendECI writes the ECI mode indicator 0111 and the one-byte form of the designator (valid for values up to 127: every registered value)
+//@ func appendECI(eci *common.CharacterSetECI, bits *gozxing.BitArray)
+//@   property C15
+//@   globals decoder.Mode_ECI
+//@   requires eci != nil && len(eci.values) >= 1 && 0 <= eci.values[0] && eci.values[0] <= 127 && bits != nil && gozxing.wfBA(bits) && gozxing.padBA(bits) && bits.size <= 10000000
+//@   assert call(AppendBits,0): arg1 == 7 && arg2 == 4
+//@   assert call(AppendBits,1): arg1 == eci.values[0] && arg2 == 8
+//@   ensures bits.size == old(bits.size) + 12
